@@ -1477,14 +1477,20 @@ func ruleVarsOnly(r *Run) {
 		return true
 	}
 	n := 0
+	// search and the helpers it calls (the conversion may sit in a helper: capture(fds, toks))
+	region := map[*ssa.Function]bool{sh.fn: true}
+	p.eachInstrRegion(sh.fn, func(g *ssa.Function, _ ssa.Instruction) { region[g] = true })
 	for _, st := range p.storesToField(nil, "param", "fds") {
-		if st.Parent() != sh.fn {
+		if !region[st.Parent()] || st.Parent().Name() == "parseParam" {
 			continue
 		}
 		n++
 		r.check(fromVars(st.Val), "(*path).search/param-fields-from-method.vars", st.Pos(), "the parameter's field path comes from method.vars", "a parameter produced by routing names a field path that does not come from method.vars: routing sets a field the template does not name")
 	}
-	eachInstr(sh.fn, func(in ssa.Instruction) {
+	p.eachInstrRegion(sh.fn, func(g *ssa.Function, in ssa.Instruction) {
+		if g.Name() == "parseParam" {
+			return
+		}
 		if c, ok := in.(*ssa.Call); ok && calleeName(c) == nParseParam {
 			n++
 			r.check(fromVars(c.Call.Args[0]), "(*path).search/capture-converted-for-method.vars", in.Pos(), "the capture is converted for the field the template names", "the capture is converted for a field path that does not come from method.vars")
